@@ -122,7 +122,7 @@ def execute(case, ctx):
     flags = ",".join((["report"] if driver == "plugin" else []) + sorted(approved))
     new, res = sim.run_session(ctx, driver, files, {"flags": flags, "fmt": fmt})
     if not sim.session_completed(driver, res):
-        out["discards"]["session-did-not-complete(C18)"] = 1
+        out["violations"].append(sim.completion_violation(driver, res, f"approved={sorted(approved)}"))
         return out
     try:
         before = sim.site_map(files, orders)
